@@ -25,7 +25,10 @@ DecAgree(ev) ==
   /\ ~d.ok => ~ev.ok
 
 DecOKFor(ev) ==
-  CASE Prop \in {"C01", "C12"} -> DecAgree(ev)
+  CASE Prop = "C01" -> DecAgree(ev)
+    [] Prop = "C12" -> /\ DecAgree(ev)
+                       \* "headers lacking the strict-version marker are rejected as bad-version"
+                       /\ (ev.kind = "msgbegin" /\ Dec(ev.kind, MkIn(ev.in)).cause = "badversion") => ev.tid = 4
     [] Prop = "C03" -> ~ev.panic /\ (ev.ok => (0 <= ev.n /\ ev.n <= SegsLen(ev.in)))
     [] Prop = "C17" ->
          LET d == Dec(ev.kind, MkIn(ev.in)) IN
